@@ -8,7 +8,7 @@
 //!   names := - | name ('.' name)* ;  name := hex | _
 use crate::util::*;
 use serde_json::{json, Value};
-use sourcemap::SourceMapHermes;
+use sourcemap::{decode_slice, DecodedMap, SourceMapHermes};
 
 fn name_of(s: &str) -> Option<String> {
     if s == "_" {
@@ -102,6 +102,31 @@ pub fn run(t: &[&str]) -> String {
         Err(e) => return format!("err {}", err_kind(&e)),
     };
     let (ta, set, oa) = answers(&smh, &offs);
+
+    // the same questions through the untyped front door (`decode_slice` + `DecodedMap`): a bytecode offset is asked
+    // for as (line 0, column = offset); any other line has no scope; token lookup is the embedded map's
+    match decode_slice(text.as_bytes()) {
+        Ok(DecodedMap::Hermes(dm_inner)) => {
+            let dm = DecodedMap::Hermes(dm_inner);
+            for (k, &o) in offs.iter().enumerate() {
+                if show_name(dm.get_original_function_name(0, o, None, None)) != oa[k] {
+                    return "err dispatch-differs-line0".into();
+                }
+                for l in [1u32, 2, o.max(1)] {
+                    if dm.get_original_function_name(l, o, None, None).is_some() {
+                        return "err dispatch-differs-other-line".into();
+                    }
+                }
+                let a = dm.lookup_token(0, o).map(|t| t.get_raw_token());
+                let b = smh.lookup_token(0, o).map(|t| t.get_raw_token());
+                if a != b {
+                    return "err dispatch-differs-lookup".into();
+                }
+            }
+        }
+        Ok(_) => return "err dispatch-not-hermes".into(),
+        Err(e) => return format!("err dispatch-{}", err_kind(&e)),
+    }
 
     // serialise and decode again: the answers must not change
     let mut out = vec![];
